@@ -7,7 +7,7 @@ Driver ops for C14 (syntax shared with harness/c14):
     progs (d0 d1 …) <term>      the same with the scheduling oracle d0 d1 …  (see Model/Tls.lean `yield`)
 
     term ::= (obs) | (set k n) | (get k) | (push n) | (deftype a) | (load a) | (panic)
-           | (doctx id term…) | (do id term…) | (doloader term…) | (fork term…) | (go term…) | (seq term…) | (recover term…)
+           | (doctx id term…) | (doparent id term…) | (do id term…) | (try id term…) | (doloader term…) | (fork term…) | (go term…) | (seq term…) | (recover term…)
 
 Output: `g0:N ev ev … | g1:P ev … ; cur=- live=0` — one block per goroutine in creation order (`N` normal, `P` panicked),
 events `o<tag>[stack]` (`!` appended when CurrentContext() is not the context handed to the body, `o-` no current
@@ -43,6 +43,16 @@ partial def progOf : Sexp → Option Prog
       if i ≥ 1000 then none
       let ps ← ts.mapM progOf
       pure (.dodo i (seqOf ps))
+  | .list (.atom "doparent" :: id :: ts) => do
+      let i ← id.nat?
+      if i ≥ 1000 then none
+      let ps ← ts.mapM progOf
+      pure (.doctx i (seqOf ps))
+  | .list (.atom "try" :: id :: ts) => do
+      let i ← id.nat?
+      if i ≥ 1000 then none
+      let ps ← ts.mapM progOf
+      pure (.dotry i (seqOf ps))
   | .list (.atom "doloader" :: ts) => (ts.mapM progOf).map fun ps => .doloader (seqOf ps)
   | .list (.atom "fork" :: ts) => (ts.mapM progOf).map fun ps => .fork (seqOf ps)
   | .list (.atom "go" :: ts) => (ts.mapM progOf).map fun ps => .go (seqOf ps)
